@@ -36,10 +36,10 @@ func H_clean() {
 	for _, b := range []string{bA1, bA2, bB1, stale1} {
 		vxrt.Assume(vxrt.Not(hasLine(b, "---")))
 	}
-	// the second test: a Test, or (thorough / known_K5=0) a benchmark or fuzz target:
+	// the second test: a Test, or (when -count is 1) a benchmark or fuzz target:
 	// *testing.B and *testing.F satisfy the interface the Match* functions take
 	nameB := "TestB"
-	if vxrt.Param("known_K5", 1) == 0 {
+	if count == 1 && prop == 7 {
 		nameB = []string{"TestB", "BenchmarkB", "FuzzB"}[vxrt.Choice("second-test-kind", 3)]
 	}
 	frames := []string{
